@@ -27,6 +27,31 @@ INTERP = {0: None, 1: 0.1, 2: 0.5}
 TRIG_KEYS = {0: "global", 1: "a", 2: "b"}
 AXES = [(1, 0, 0), (-1, 0, 0), (0, 1, 0), (0, -1, 0), (0, 0, 1), (0, 0, -1)]
 NGRID = 8
+# weights are dyadic so that float products are exact; the model sees them scaled by 2**64
+W_SCALE = 2 ** 64
+W_VALUES = [None, None, 0.0, 2.0 ** -30, 1 / 16, 1 / 8, 1 / 4, 1 / 2, 1.0]
+W_THRESH = [2.0 ** -40, 1 / 32, 1 / 8, 1 / 4, 1 / 2]
+
+
+def wz(x):
+    """exact scaled integer of a dyadic weight"""
+    from fractions import Fraction
+    v = Fraction(x) * W_SCALE
+    assert v.denominator == 1, x
+    return int(v)
+
+
+def true_weight(q):
+    """oracle for the documented total weight, from the stored partial weights only:
+    the forced weight if given, else survival * interaction with an unset weight counting as 1"""
+    from fractions import Fraction
+    if q.get("forced") is not None:
+        return Fraction(q["forced"])
+    w = Fraction(1)
+    for k in ("surv", "int"):
+        if q[k] is not None:
+            w *= Fraction(q[k])
+    return w
 
 
 PINNED = [("pyrex/kernel.py", ["EventKernel.event", "EventKernel.__init__"])]
@@ -81,12 +106,12 @@ def gen_scenario(rng, big):
     sc = {"ants": ants, "t0": rng.choice([-16, 0, 8]), "omax": rng.choice([None, 20, 40, 100, 150]),
           "interp": rng.choice([0, 1, 2]), "writer": rng.random() < 0.7}
     r = rng.random()
-    if r < 0.3:
+    if r < 0.2:
         sc["wmin"] = None
-    elif r < 0.6:
-        sc["wmin"] = ("scalar", rng.choice([0, 2, 4, 6]))
+    elif r < 0.65:
+        sc["wmin"] = ("scalar", rng.choice(W_THRESH))
     else:
-        sc["wmin"] = (rng.choice(["tuple", "list"]), rng.choice([0, 2, 4]), rng.choice([0, 3, 5]))
+        sc["wmin"] = (rng.choice(["tuple", "list"]), rng.choice([0.0] + W_THRESH), rng.choice([0.0] + W_THRESH))
     r = rng.random()
     if r < 0.3:
         sc["trig"] = None
@@ -104,8 +129,11 @@ def gen_scenario(rng, big):
         qs = []
         for _ in range(rng.choice([0, 1, 1, 2, 3, 4] if big else [1, 1, 2, 3])):
             pid += 1
-            q = {"id": pid, "w": rng.randint(0, 8), "surv": rng.choice([None, 1, 3, 5, 7]),
-                 "int": rng.choice([None, 2, 4, 6]), "dir": rng.choice(AXES), "thc": rng.choice([60, 60, 0])}
+            # partial weights as the generators store them: unset, exactly 0 (underflow), tiny,
+            # below / at / above the thresholds, 1; now and then a forced total weight
+            q = {"id": pid, "surv": rng.choice(W_VALUES), "int": rng.choice(W_VALUES),
+                 "forced": rng.choice(W_VALUES[1:]) if rng.random() < 0.15 else None,
+                 "dir": rng.choice(AXES), "thc": rng.choice([60, 60, 0])}
             qs.append(q)
             for a in ants:
                 r = rng.random()
@@ -141,7 +169,7 @@ def scenario_coq(sc):
     tr = lst("(%s, %s, %s)" % (zl(p), zl(a), "None" if s is None else "(Some %s)" % lst(path(x) for x in s)) for p, a, s in sc["trace"])
     sf = lst("(%s, %s)" % (zl(p), zl(h)) for p, h in sc["sigfail"])
     w = sc["wmin"]
-    wm = "(WScalar 0)" if w is None else "(WScalar %s)" % zl(w[1]) if w[0] == "scalar" else "(WPair %s %s)" % (zl(w[1]), zl(w[2]))
+    wm = "(WScalar 0)" if w is None else "(WScalar %s)" % zl(wz(w[1])) if w[0] == "scalar" else "(WPair %s %s)" % (zl(wz(w[1])), zl(wz(w[2])))
     t = sc["trig"]
     b = lambda x: "true" if x else "false"
     tg = "TNone" if t is None else "(TFun %s)" % b(t[1]) if t[0] == "fun" else "(TDict %s)" % lst("(%s, %s)" % (zl(k), b(v)) for k, v in t[1])
@@ -150,7 +178,9 @@ def scenario_coq(sc):
         b(sc["writer"]), zl(sc["t0"]))
 
     def part(q):
-        return "(mkpart %s %s %s %s %s %s)" % (zl(q["id"]), zl(q["w"]), coq_opt(q["surv"]), coq_opt(q["int"]), coq_vec(q["dir"]), zl(q["thc"]))
+        return "(mkpart %s %s %s %s %s %s)" % (zl(q["id"]), zl(wz(true_weight(q))),
+                                                coq_opt(None if q["surv"] is None else wz(q["surv"])),
+                                                coq_opt(None if q["int"] is None else wz(q["int"])), coq_vec(q["dir"]), zl(q["thc"]))
     evs = lst("(%s, %s, %s)" % (zl(e["id"]), lst(part(q) for q in e["qs"]), zl(e["count"])) for e in sc["events"])
     return "run %s %s %s" % (cfg, zl(sc["count0"]), evs)
 
@@ -248,22 +278,25 @@ def run_kernel(sc):
                 else:
                     log.append("CRecv %s -1 -1 -1" % zl(self.aid))
 
-    class Particle:
-        def __init__(self, q):
-            self.pid = q["id"]
-            self.vertex = np.array([q["id"], 0, -100 if q["thc"] == 60 else -200], dtype=float)
-            self.direction = np.array(q["dir"], dtype=float)
-            self.weight = float(q["w"])
-            self.survival_weight = None if q["surv"] is None else float(q["surv"])
-            self.interaction_weight = None if q["int"] is None else float(q["int"])
+    from pyrex.particle import Particle as RealParticle, Event as RealEvent
 
-    class Event:
-        def __init__(self, e):
-            self.eid = e["id"]
-            self.parts = [Particle(q) for q in e["qs"]]
+    def make_particle(q):
+        """a real pyrex Particle carrying the stored partial weights (and, rarely, a forced weight)"""
+        p = RealParticle(particle_id="electron_neutrino", vertex=[q["id"], 0, -100 if q["thc"] == 60 else -200],
+                         direction=q["dir"], energy=1e9, interaction_type="cc", weight=q.get("forced"))
+        p.survival_weight = q["surv"]
+        p.interaction_weight = q["int"]
+        p.pid = q["id"]
+        return p
 
+    class EmptyEvent:
         def __iter__(self):
-            return iter(self.parts)
+            return iter(())
+
+    def make_event(e):
+        ev = RealEvent([make_particle(q) for q in e["qs"]]) if e["qs"] else EmptyEvent()
+        ev.eid = e["id"]
+        return ev
 
     class Gen:
         def __init__(self):
@@ -275,7 +308,7 @@ def run_kernel(sc):
             e = sc["events"][self.i]
             self.i += 1
             self.count = e["count"]
-            self.last = Event(e)
+            self.last = make_event(e)
             return self.last
 
     class Writer:
@@ -425,10 +458,14 @@ def make_generator(kind, rng, tmpdir, ice, light=False):
     from pyrex.generation import ListGenerator, CylindricalGenerator, RectangularGenerator, FileGenerator
     seed = rng.randrange(2 ** 31)
     np.random.seed(seed)
+    # shadow=False: up-going neutrinos are kept and weighted; at 1e12 GeV the survival weight of the steep
+    # ones underflows to exactly 0.0
+    energy = rng.choice([1e8, 1e12])
     if kind == "Cylindrical":
-        return CylindricalGenerator(dr=300, dz=600, energy=1e8, shadow=False), {"np_seed": seed}
+        return CylindricalGenerator(dr=300, dz=600, energy=energy, shadow=False), {"np_seed": seed, "energy": energy}
     if kind == "Rectangular":
-        return RectangularGenerator(dx=400, dy=400, dz=600, energy=1e8, shadow=False), {"np_seed": seed}
+        return RectangularGenerator(dx=400, dy=400, dz=600, energy=energy, shadow=False), {"np_seed": seed, "energy": energy}
+    weigher = CylindricalGenerator(dr=5000, dz=1000, energy=1e12, shadow=False)
 
     def rand_event():
         parts = []
@@ -438,11 +475,20 @@ def make_generator(kind, rng, tmpdir, ice, light=False):
             if rng.random() < 0.25:
                 # far and shallow: in the shadow zone of the depth-dependent ice models
                 vertex = [rng.uniform(1500, 3000), rng.uniform(-100, 100), -rng.uniform(5, 40)]
+            energy = 10 ** rng.uniform(7, 9)
+            generator_weights = rng.random() < 0.5
+            if generator_weights and rng.random() < 0.5:
+                # up-going ultra-high-energy neutrino: survival probability through the Earth underflows to 0.0
+                d = np.array([rng.uniform(-0.2, 0.2), rng.uniform(-0.2, 0.2), 1.0])
+                energy = 1e12
             p = Particle(particle_id=rng.choice(["electron_neutrino", "muon_antineutrino"]),
                          vertex=vertex,
-                         direction=d, energy=10 ** rng.uniform(7, 9),
+                         direction=d, energy=energy,
                          interaction_type=rng.choice(["cc", "nc"]),
-                         weight=rng.choice([1.0, 0.5, 0.01]))
+                         weight=None if generator_weights else rng.choice([1.0, 0.5, 0.01]))
+            if generator_weights:
+                # exactly what Generator.create_event does when shadow=False
+                p.survival_weight, p.interaction_weight = weigher.get_weights(p)
             parts.append(p)
         return Event(parts)
     events = [rand_event() for _ in range(3)]
@@ -471,9 +517,10 @@ def run_cell(cell, seed, tmpdir, case=None):
     times = np.linspace(-20e-9, 80e-9, 128, endpoint=False)
     stats = {"events": 0, "signals": 0, "empty": 0, "no_path": 0, "cut": 0}
     offc = rng.choice([None, 40, 10])
-    wmin = rng.choice([None, 0.1, (0.2, 0.2)])
+    wmin = rng.choice([None, 1e-6, 1e-6, 0.1, (0.2, 0.2), (1e-6, 1e-6)])
     desc = {"tracer": tn, "model": mn, "generator": gk, "attenuation_interpolation": interp, "offcone_max": offc,
             "weight_min": list(wmin) if isinstance(wmin, tuple) else wmin, "cell_seed": seed}
+    gen = None
     try:
         # FunctionSignal.__add__ deep-copies the propagation filters, which for the layered
         # tracer drags the whole path/tracer object graph along (seconds per received pulse):
@@ -537,7 +584,19 @@ def run_cell(cell, seed, tmpdir, case=None):
                     cut = ((p.survival_weight is not None and p.survival_weight < wmin[0]) or
                            (p.interaction_weight is not None and p.interaction_weight < wmin[1]))
                 else:
-                    cut = p.weight < (0 if wmin is None else wmin)
+                    # documented total weight from the stored partial weights (None counts as 1),
+                    # not through Particle.weight
+                    forced = getattr(p, "_forced_weight", None)
+                    if forced is not None:
+                        total = forced
+                    else:
+                        total = 1.0
+                        for part in (p.survival_weight, p.interaction_weight):
+                            if part is not None:
+                                total = total * float(part)
+                    cut = total < (0 if wmin is None else wmin)
+                    if total == 0:
+                        stats["zero_weight"] = stats.get("zero_weight", 0) + 1
                 if cut:
                     stats["cut"] += 1
                 else:
@@ -592,7 +651,7 @@ def run_cell(cell, seed, tmpdir, case=None):
         # is it the component itself that fails, independently of the kernel?  (ray tracer used directly
         # on the same vertex / antenna position)
         try:
-            for p in (gen.last or []):
+            for p in ((gen.last if gen is not None else None) or []):
                 for a in ants:
                     try:
                         rt = tr(p.vertex, a.position, ice_model=ice)
@@ -622,7 +681,7 @@ def run_matrix(ctx, tmpdir):
                                case=lambda n, nt, sig: ctx.case(key=(key, rep, n), nontrivial=nt, sample={"cell": key, "signals": sig}))
             stats["cells"] += 1
             for k, v in st.items():
-                stats[k] += v
+                stats[k] = stats.get(k, 0) + v
             stats["slowest"] = sorted(stats["slowest"] + [(round(_time.time() - t0, 2), key)], reverse=True)[:3]
             if bad:
                 cf = bad[1].get("component_failure")
